@@ -959,3 +959,174 @@ func TestVerif_C11_TailRound1(t *testing.T) {
 		}
 	})
 }
+
+// TestVerif_C11_BigBucket: many committed transactions sharing ONE LastValid round. txTail.loadFromDisk collects the
+// persisted transactions per LastValid in a temporary list that it grows by hand (256, 512, 1024 ... entries); every
+// transaction of such a bucket must still be known after the tail was rebuilt from the tracker DB.
+// Scripted history on a drawn world: N cheap payments (N around the growth steps) with the common LastValid lvBig, spread
+// over 1-3 blocks, plus a small control bucket with another LastValid; enough empty blocks for the drawn MaxAcctLookback;
+// forced tracker commit (so that all of them are in the persisted tail); reloadLedger or close+OpenLedger; then EVERY one
+// of them is asked through Ledger.CheckDup and re-submitted to the evaluator of the next block.
+func TestVerif_C11_BigBucket(t *testing.T) {
+	vk := vkBegin(t, "C11")
+	vk.Rule("scripted history on drawn worlds (MaxTxnLife 16): N payments with one common LastValid (N drawn from 257, 258, 300, 511..514; thorough also 600, 1025, 1100) spread over 1-3 blocks + a control bucket of 3-40 payments with another LastValid; " +
+		"empty blocks for the drawn MaxAcctLookback (1-4); forced tracker commit; reloadLedger or close+OpenLedger; then every committed transaction is asked through Ledger.CheckDup(current=latest+1) and replayed to the evaluator (Test+TransactionGroup or TransactionGroup alone). " +
+		"Oracle: committed ids from the paysets. Non-trivial: all N transactions were in the persisted tail (committed at rounds <= tracker DB round) at the restart and N > 256. Distinct: by world, N, split and restart kind.")
+	cv := engcRegisterProto(t, "verif-c11b-future-16", protocol.ConsensusFuture, func(p *config.ConsensusParams) { p.MaxTxnLife = 16 })
+	rapid.Check(t, func(rt *rapid.T) {
+		w := engcNewWorld(t, rt, engcOpts{Proto: cv, Profile: "pay", Label: vk.Label, CfgHook: func(name string, cfg *config.Local) {
+			cfg.DisableLedgerLRUCache = true
+			cfg.MaxAcctLookback = (cfg.MaxAcctLookback + 1) / 2
+		}})
+		defer w.Close()
+		n := w.Node
+		if !n.OnDisk && rapid.Bool().Draw(rt, "toDisk") {
+			if err := c11ToDisk(n); err != nil {
+				rt.Fatalf("ENGINE: reopen on disk: %v", err)
+			}
+		}
+		n.OpSetParked(true)
+		sizes := []int{257, 258, 300, 511, 512, 513, 514}
+		if vkThorough() {
+			sizes = append(sizes, 600, 1025, 1100)
+		}
+		N := sizes[rapid.IntRange(0, len(sizes)-1).Draw(rt, "bucketSize")]
+		nBlocks := rapid.IntRange(1, 3).Draw(rt, "bucketBlocks")
+		nCtl := rapid.IntRange(3, 40).Draw(rt, "controlSize")
+		warm := rapid.IntRange(0, 2).Draw(rt, "warmupBlocks")
+		for i := 0; i < warm; i++ {
+			w.StepBlock(rt, 0)
+		}
+		lookback := basics.Round(n.Cfg.MaxAcctLookback)
+		r0 := w.Model.Latest() + 1
+		last := r0 + basics.Round(nBlocks) - 1 // last round with bucket transactions
+		restartAt := last + lookback           // latest round at the restart
+		lvBig := restartAt + basics.Round(rapid.IntRange(1, 3).Draw(rt, "leftAfterRestart"))
+		lvCtl := lvBig + 1
+		if lvCtl-r0 > 16 {
+			rt.Fatalf("ENGINE: window too long (r0 %d lv %d)", r0, lvCtl)
+		}
+		type rec struct {
+			st    transactions.SignedTxn
+			round basics.Round
+		}
+		var all []rec
+		submitted := 0
+		for bi := 0; bi < nBlocks; bi++ {
+			b := w.BeginBlock(rt)
+			want := N / nBlocks
+			if bi == nBlocks-1 {
+				want = N - submitted
+			}
+			ctl := 0
+			if bi == 0 {
+				ctl = nCtl
+			}
+			budget := map[basics.Address]uint64{}
+			for _, u := range w.Users {
+				budget[u] = b.Gen.spendable(u)
+			}
+			ui := 0
+			for i := 0; i < want+ctl; i++ {
+				var snd basics.Address
+				found := false
+				for k := 0; k < len(w.Users); k++ {
+					u := w.Users[(ui+k)%len(w.Users)]
+					if budget[u] >= 3*w.Proto.MinTxnFee {
+						snd, found = u, true
+						ui = (ui + k + 1) % len(w.Users)
+						break
+					}
+				}
+				if !found {
+					rt.Fatalf("ENGINE: no funded sender left")
+				}
+				budget[snd] -= w.Proto.MinTxnFee
+				lv := lvBig
+				if i >= want {
+					lv = lvCtl
+				}
+				tx := &txntest.Txn{Type: protocol.PaymentTx, Sender: snd, Receiver: w.Users[(ui+1)%len(w.Users)], Amount: 0, FirstValid: b.Round, LastValid: lv}
+				if err := b.Submit([]string{"bucket"}, tx); err != nil {
+					rt.Fatalf("ENGINE: bucket payment %d of block %d rejected: %v", i, b.Round, err)
+				}
+			}
+			submitted += want
+			info := b.Finish(rt)
+			flat, err := info.Block.DecodePaysetFlat()
+			if err != nil || len(flat) != want+ctl {
+				rt.Fatalf("ENGINE: payset of block %d: %v, %d transactions, want %d", b.Round, err, len(flat), want+ctl)
+			}
+			for _, stad := range flat {
+				all = append(all, rec{stad.SignedTxn, b.Round})
+			}
+		}
+		for w.Model.Latest() < restartAt {
+			w.StepBlock(rt, 0)
+		}
+		n.OpCommit()
+		db := n.DBRound()
+		persisted := db >= last
+		probeAll := func(when string) {
+			l := n.L
+			cur := l.Latest() + 1
+			for i, x := range all {
+				if x.st.Txn.LastValid < cur {
+					continue // window over: not asked (no production caller does)
+				}
+				err := l.CheckDup(w.Proto, cur, x.st.Txn.FirstValid, x.st.Txn.LastValid, x.st.ID(), ledgercore.Txlease{Sender: x.st.Txn.Sender})
+				if c11Class(err) != "txid-dup" {
+					rt.Fatalf("C11 VIOLATION: %s: CheckDup(current %d) for transaction #%d of %d (%v, committed in round %d, window [%d,%d]) returned %v; want TransactionInLedgerError "+
+						"(N=%d with LastValid %d over %d blocks, control %d, tracker DB round %d at the restart, latest %d)\n%s",
+						when, cur, i, len(all), x.st.ID(), x.round, x.st.Txn.FirstValid, x.st.Txn.LastValid, err, N, lvBig, nBlocks, nCtl, db, l.Latest(), strings.Join(w.History, "\n"))
+				}
+			}
+			vk.Add("bigbucket_checkdup_probes", int64(len(all)))
+		}
+		probeAll("before the restart")
+		reopen := n.OnDisk && rapid.Bool().Draw(rt, "reopen")
+		var err error
+		if reopen {
+			err = n.OpReopen()
+			vk.Label("op:reopen")
+		} else {
+			err = n.OpReload()
+			vk.Label("op:reload")
+		}
+		if err != nil {
+			rt.Fatalf("C11 VIOLATION: restart failed: %v", err)
+		}
+		probeAll("after the restart")
+		// the evaluator of the next block: every one of them is an exact replay inside its window
+		b := w.BeginBlock(rt)
+		direct := rapid.Bool().Draw(rt, "direct")
+		for i, x := range all {
+			g := []transactions.SignedTxn{x.st}
+			var err error
+			if direct {
+				err = b.Eval.TransactionGroup(transactions.WrapSignedTxnsWithAD(g)...)
+			} else {
+				err = b.Eval.TestTransactionGroup(g)
+				if err == nil {
+					err = b.Eval.TransactionGroup(transactions.WrapSignedTxnsWithAD(g)...)
+				}
+			}
+			if c11Class(err) != "txid-dup" {
+				rt.Fatalf("C11 VIOLATION: after the restart the evaluator of round %d answered the exact replay of transaction #%d of %d (%v, committed in round %d, window [%d,%d]) with %v; want TransactionInLedgerError "+
+					"(N=%d with LastValid %d over %d blocks, tracker DB round %d at the restart)\n%s",
+					b.Round, i, len(all), x.st.ID(), x.round, x.st.Txn.FirstValid, x.st.Txn.LastValid, err, N, lvBig, nBlocks, db, strings.Join(w.History, "\n"))
+			}
+		}
+		vk.Add("bigbucket_evaluator_replays", int64(len(all)))
+		b.Finish(rt)
+		probeAll("one block after the restart")
+		nontrivial := persisted && N > 256
+		vk.Case(nontrivial, fmt.Sprintf("N=%d blocks=%d ctl=%d warm=%d reopen=%v direct=%v|%s", N, nBlocks, nCtl, warm, reopen, direct, strings.Join(w.History, "|")))
+		vk.Labelf("bigbucket:N=%d", N)
+		vk.Labelf("bigbucket:blocks=%d", nBlocks)
+		vk.Labelf("bigbucket:all-in-persisted-tail=%v", persisted)
+		if vk.WantSample(nontrivial) {
+			vk.Sample(nontrivial, map[string]any{"N": N, "blocks": nBlocks, "control": nCtl, "lastValid": lvBig, "db_round_at_restart": db, "restart_at": restartAt, "reopen": reopen, "history": w.History})
+		}
+	})
+}
